@@ -302,6 +302,15 @@ def read_tsv(path):
     return d
 
 
+def _big_stack():
+    import resource
+    try:
+        hard = resource.getrlimit(resource.RLIMIT_STACK)[1]
+        resource.setrlimit(resource.RLIMIT_STACK, (hard, hard))
+    except (ValueError, OSError):
+        pass
+
+
 def run_model(exe, cases_path, out_path, shards=16, timeout=3000):
     """run the extracted model over the case file, sharded over processes"""
     lines = [l for l in open(cases_path).read().split("\n") if l]
@@ -309,7 +318,9 @@ def run_model(exe, cases_path, out_path, shards=16, timeout=3000):
     procs = []
     for i in range(n):
         part = "\n".join(lines[i::n]) + "\n"
-        p = subprocess.Popen([exe], stdin=subprocess.PIPE, stdout=subprocess.PIPE, text=True)
+        # extracted list functions are not tail-recursive: a case with a write of a megabyte needs more than the 8 MiB
+        # default stack (C14 thorough: `Stack_overflow` on csw … g1048576)
+        p = subprocess.Popen([exe], stdin=subprocess.PIPE, stdout=subprocess.PIPE, text=True, preexec_fn=_big_stack)
         procs.append((p, part))
     # feed and collect (small inputs: communicate sequentially is fine, processes run concurrently)
     import threading
